@@ -46,6 +46,7 @@ def OPT(t): return ('opt', t)
 def PAIR(a, b): return ('pair', a, b)
 def ARR(t): return ('arr', t)
 def BOX(t): return ('box', t)
+def PAREN(t): return ('paren', t)   # `(T)`: a parenthesised type, the same type as T
 
 
 def rust(t):
@@ -70,6 +71,8 @@ def rust(t):
         return f'[{rust(t[1])}; 2]'
     if k == 'box':
         return f'Box<{rust(t[1])}>'
+    if k == 'paren':
+        return f'({rust(t[1])})'
     raise ValueError(t)
 
 
@@ -118,6 +121,8 @@ def parse_term(s):
             elif c == ',' and depth == 0:
                 a, b = parse_term(inner[:i]), parse_term(inner[i + 1:])
                 return PAIR(a, b) if a and b else None
+        t = parse_term(inner)      # no top-level comma: parentheses only
+        return PAREN(t) if t else None
     return None
 
 
@@ -159,6 +164,8 @@ class Enc:
 
     def holds(self, t, tr):
         k = t[0]
+        if k == 'paren':
+            return self.holds(t[1], tr)
         if k == 'param':
             if t[1] not in self.params:
                 return self.atom(f'{t[1]}:{tr}')
@@ -617,6 +624,10 @@ def c11_corpus(tier, seed):
             vattr={'A': 'Debug(named_field = false)', 'B': 'Debug(named_field = true)'})
         add('enum', tparams(['T', 'U', 'V']), [('A', 'named', [Field(V, Debug=role), Field(T)], False), ('B', 'tuple', [Field(U, Debug=role), Field(PH(V)), Field(PH(U))], False)], [('Debug', None)],
             vattr={'A': 'Debug(name = false)', 'B': 'Debug(name = Bee)'}, topt={'Debug': 'name = true'})
+    # parenthesised field types `(T)`, `(Option<U>)`: the same types as without parentheses
+    for tr in ['Debug', 'Clone', 'PartialEq', 'Hash', 'Default']:
+        add('struct', tparams(['T', 'U']), [('S', 'named', [Field(PAREN(T)), Field(PAREN(OPT(U))), Field(U8)], False)], [(tr, None)])
+    add('enum', tparams(['T', 'U']), [('A', 'tuple', [Field(PAREN(T), PartialOrd='ignore'), Field(PAREN(PAIR(U, U8)))], False), ('B', 'unit', [], False)], [('PartialOrd', None)], hand=['PartialEq'])
     # Eq next to PartialEq (companion), attributes carried by Eq(..)
     add('struct', tparams(['T', 'U']), [('S', 'named', [Field(T), Field(U, Eq='ignore')], False)], [('PartialEq', None), ('Eq', None)])
     add('enum', tparams(['T', 'U']), [('A', 'tuple', [Field(T, PartialEq='method'), Field(OPT(U))], False), ('B', 'unit', [], False)], [('PartialEq', None), ('Eq', None)])
@@ -989,8 +1000,8 @@ def validate_rules(enc_params=('T', 'U')):
     """translator validation: every structural rule of holds() against rustc, on every run"""
     pr = Probe()
     checks = []
-    ctors = [lambda t: t, OPT, ARR, BOX, PH, lambda t: PAIR(t, U8), lambda t: PAIR(t, t)]
-    names = ['T', 'Option<T>', '[T; 2]', 'Box<T>', 'PhantomData<T>', '(T, u8)', '(T, T)']
+    ctors = [lambda t: t, OPT, ARR, BOX, PH, lambda t: PAIR(t, U8), lambda t: PAIR(t, t), PAREN]
+    names = ['T', 'Option<T>', '[T; 2]', 'Box<T>', 'PhantomData<T>', '(T, u8)', '(T, T)', '(T)']
     for tr in TRAITS:
         for has in (True, False):
             arg = pr.argtype([tr] if has else [])
